@@ -143,7 +143,7 @@ PropsOf(sig, r) ==
      <<"C01">>
   \o (IF sig \in ShapeSigs \/ Prefix(r.cfg.label, "resume") THEN <<"C04">> ELSE <<>>)
   \o (IF Prefix(r.cfg.label, "subsets") THEN <<"C07">> ELSE <<>>)
-  \o (IF OutOf(r).filter # <<>> THEN <<"C15">> ELSE <<>>)
+  \o (IF \E i \in DOMAIN UProg(r) : UProg(r)[i].filter # <<>> THEN <<"C15">> ELSE <<>>)
   \o (IF Prefix(r.cfg.label, "faults") THEN <<"C16">> ELSE <<>>)
   \* C05 (liveness on the real code): a parallel request must terminate with the right outcome, never hang, fail or crash
   \o (IF Prefix(sig, "request_failed") \/ Prefix(sig, "panic") THEN <<"C05">> ELSE <<>>)
